@@ -12,6 +12,9 @@ import (
 	"net/textproto"
 	"reflect"
 	"strconv"
+	"sync"
+
+	goa "goa.design/goa/v3/pkg"
 
 	"verif.local/lab/spec"
 )
@@ -481,4 +484,35 @@ func (dr *Driver) clientMethodArgs(st *svcState, method string, mt reflect.Type)
 		}
 	}
 	return args
+}
+
+// mpEndpoints holds the client endpoints of multipart methods, keyed by (service state, method).
+var mpEndpoints sync.Map
+
+type mpEndpointKey struct {
+	st     *svcState
+	method string
+}
+
+// clientEndpoint returns the goa.Endpoint of a generated client method. A plain method's is built per case,
+// as before. The endpoint of a multipart method — the one kind whose constructor takes user code and builds
+// per-endpoint state around it (New<Svc><Method>Encoder) — is built ONCE per service and reused by every
+// case, as a program using the generated client does (gen/<svc>/client.go keeps the endpoints it was built
+// with): state that leaks from one request of the endpoint into the next is then observable.
+func (dr *Driver) clientEndpoint(st *svcState, method string, m reflect.Value) (goa.Endpoint, bool) {
+	args := dr.clientMethodArgs(st, method, m.Type())
+	if len(args) == 0 {
+		ep, ok := m.Call(nil)[0].Interface().(goa.Endpoint)
+		return ep, ok
+	}
+	k := mpEndpointKey{st, method}
+	if ep, ok := mpEndpoints.Load(k); ok {
+		return ep.(goa.Endpoint), true
+	}
+	ep, ok := m.Call(args)[0].Interface().(goa.Endpoint)
+	if !ok {
+		return nil, false
+	}
+	actual, _ := mpEndpoints.LoadOrStore(k, ep)
+	return actual.(goa.Endpoint), true
 }
